@@ -40,7 +40,7 @@ VARIANTS = {
     'cfg':    ('gcc', '-O1', 'static', False),
 }
 
-INTERPOSE = ['malloc', 'realloc', 'free', 'mmap', 'munmap', 'arc4random_buf']
+INTERPOSE = ['malloc', 'calloc', 'realloc', 'free', 'mmap', 'munmap', 'arc4random_buf']
 
 
 def repo_dir():
@@ -189,7 +189,7 @@ def build_variant(name, enabled=None, obsolete=None, failure_tokens=None,
         over['ENABLE_FAILURE_TOKENS'] = '1' if failure_tokens else '0'
     cflags = (cflags + ' ' + extra_cflags).strip()
     fp = tree_fingerprint(repo)
-    key = hashlib.sha256(json.dumps([fp, base, cc, cflags, kind, enabled, over, compat_abi, 4]).encode()).hexdigest()[:16]
+    key = hashlib.sha256(json.dumps([fp, base, cc, cflags, kind, enabled, over, compat_abi, INTERPOSE, 5]).encode()).hexdigest()[:16]
     os.makedirs(BUILD, exist_ok=True)
     tag = base if base != 'cfg' else 'cfg'
     vdir = os.path.join(BUILD, '%s-%s' % (tag, key))
